@@ -31,6 +31,8 @@ RoundTrip ==
                  (IF ToSet(Ev.srcAfterC) # ToSet(Ev.srcC) THEN {"zip-changed-its-source"} ELSE {})
                  \cup Extraction(Ev.unzipErr, Ev.extC, Ev.extT, Ev.list, Ev.extP, "unzip")
                  \cup Extraction(Ev.unzipLimitsErr, Ev.ext2C, Ev.ext2T, Ev.list2, Ev.ext2P, "unzip-with-limits")
+                 \* recursive limits: the trees hold no real archive, a name with an archive extension is a name like any other
+                 \cup Extraction(Ev.unzipRecursiveErr, Ev.ext3C, Ev.ext3T, Ev.list3, Ev.ext3P, "unzip-with-recursive-limits")
                  \cup (IF Ev.listOut # <<>> THEN {"list-names-path-outside-destination"} ELSE {})
                  \cup (IF Ev.zipViewErr # "" THEN {"zip-view-not-opened"} ELSE
                          (IF ToSet(Ev.zipViewC) # ToSet(Ev.srcC) THEN {"zip-view-differs-from-source"} ELSE {})
